@@ -118,3 +118,8 @@ Example ex_link_general :
   let os := [ScReport Starting; ScAttach 1; ScReport OK; ScAttach 2; ScReport RecoverableError; ScReport OK; ScAttach 3; ScReport Stopping] in
   NoDup (0 :: attached os) /\ attach_ok 0 os /\ length (sc_run shared0 (ScAttach 0 :: os)) = 20.
 Proof. vm_compute. repeat split; try lia. repeat constructor; simpl; intuition discriminate. Qed.
+
+(* round 7: a configuration naming extension 2 twice; the order has it once *)
+Example ex_ext_ids : ext_ids [2; 0; 2; 1; 2] = [0; 1; 2] /\ order_ok [2; 0; 2; 1; 2] [1; 2; 0] [2; 0] = true /\
+  order_ok [2; 0; 2; 1; 2] [2; 0; 2; 1] [2; 0] = false.
+Proof. vm_compute. auto. Qed.
